@@ -2,7 +2,7 @@
 # g7_one.sh <ID> [tag] : confirm the delivered change of a seeding agent (tools/confirm_seed7.sh) unless already kept, keep it under the next free letter, and run the quick
 # check of its property on it in a scratch worktree (tools/run_on_seed_wt.sh).  Output: /tmp/g7/<ID>.log
 ID=$1; G=${2:-g7}; mkdir -p /tmp/g7
-K=$(grep -l '"generation": 7' /verif/seeded/$ID?/meta.json 2>/dev/null | head -1)
+N=$(echo ${2:-g7} | tr -d g); K=$(grep -l "\"generation\": $N" /verif/seeded/$ID?/meta.json 2>/dev/null | head -1)
 if [ -n "$K" ]; then S=$(basename $(dirname $K)); : > /tmp/g7/$ID.log; else
   L=$(/verif/tools/next_letter.sh $ID); S=$ID$L
   /verif/tools/confirm_seed7.sh $ID $L $G > /tmp/g7/$ID.log 2>&1
